@@ -183,6 +183,21 @@ def build(q, wd, witness):
     return cur, None
 
 
+def borrow(modname, pick, tier="quick"):
+    """queries of another property whose obligations this property also rests on (re-run under this property's id)"""
+    import copy
+    mod = importlib.import_module("queries." + modname)
+    out = []
+    for q in mod.queries():
+        if pick(q):
+            q2 = copy.copy(q)
+            q2.name = modname + "-" + q.name
+            q2.tier = tier if q.tier == "quick" else "thorough"
+            q2.note = ((q.note or "") + " [borrowed from %s]" % modname).strip()
+            out.append(q2)
+    return out
+
+
 def loops_of(gb):
     rc, out, err, _ = run(["goto-instrument", "--show-loops", gb], timeout=120)
     return re.findall(r"^Loop ([^\s:]+):", out, re.M)
